@@ -1,6 +1,7 @@
 (* C10 — enumeration returns exactly all minimum covers by primes.
    Statements only; proofs in theories/L5Cover/BoxesProofs.v,
-   MinCoverProofs.v, CoverEnumProofs.v, CoverEnumBounded4.v.
+   MinCoverProofs.v, CoverEnumProofs.v, CoverEnumLemmas.v, CoverEnumStep.v,
+   CoverEnumExact.v, CoverEnumBounded4.v.
 
    (1) Specification and verified reference/checker, every finite instance:
        [all_min_covers_ref] is exactly the set of minimum covers by maximal
@@ -8,9 +9,16 @@
        The check evaluates the checker inside Coq on the set of covers
        returned by the real cover_enum.minimize.
    (2) Model of cover_enum.minimize (L5Cover/CoverEnum.v) AS REPAIRED by
-       fixes/F2.patch: soundness for all instances and picks; exactness on
-       the finite domains of the property's quantifier by computation;
-       exactness for all instances is stated ([C10_full]) and NOT proved.
+       fixes/F2.patch: [C10_enum_exact], for ALL instances and ALL pick
+       functions, whenever the model returns a set of covers it is exactly
+       the set of all minimum covers by primes (exhaustive branch and bound,
+       reduction steps, the two enumerations); that the model does return
+       (no assertion of the code fails, the recursion ends) is proved on the
+       finite domains of the property's quantifier by computation
+       ([_bounded]) and stated for all instances with a non-empty f as
+       [C10_total] (NOT proved); [C10_full] = [C10_total] + exactness.
+       For f = FALSE the code fails an assertion ([C10_refuted_empty_f];
+       the library requires f to be non-empty).
    (3) Finding F2 (unrepaired code): Context.pick_iter / Context.count are
        called without care_vars, so a set of boxes that is a cylinder along a
        parameter is enumerated/counted as fewer elements and the assertions
@@ -20,7 +28,8 @@ Import ListNotations.
 From Omega Require Import L5Cover.Boxes L5Cover.BoxesProofs L5Cover.MinCover
   L5Cover.MinCoverProofs L5Cover.CoverEnum L5Cover.CoverEnumProofs
   L5Cover.MinCoverBounded L5Cover.MinCoverBounded4 L5Cover.CoverEnumBounded4
-  L5Cover.CoverEnumOld L5Cover.CoverEnumRefuted.
+  L5Cover.CoverEnumOld L5Cover.CoverEnumRefuted L5Cover.CyclicCoreOpt
+  L5Cover.CoverEnumLemmas L5Cover.CoverEnumStep L5Cover.CoverEnumExact.
 Open Scope Z_scope.
 
 (* what C10 demands of an enumeration procedure: it returns (no error) a set
@@ -105,11 +114,81 @@ Theorem C10_bounded_4 :
             all_min_prime_covers rs4 (fun_of_mask fm) care_true R.
 Proof. exact enum_exact_bounded_4_first. Qed.
 
-(* the unbounded statement about the model: NOT proved *)
+(* ---- (2') exactness, all instances, all pick functions: whenever the model
+   of cover_enum.minimize returns a set of covers, it is exactly the set of
+   all minimum covers of f by primes (every member is a duplicate-free
+   minimum cover by primes; every minimum cover by primes is a member up to
+   the order of its boxes) *)
+Theorem C10_enum_exact : forall rs pick f care R,
+  (forall s b, pick s = Some b -> In b s) ->
+  enum_minimize rs pick f care = inl R ->
+  all_min_prime_covers rs f care R.
+Proof. exact enum_exact. Qed.
+
+(* the same on an abstract covering problem (X below top, Y an antichain
+   above bottom): the result consists of duplicate-free lists and contains,
+   up to order, every minimum-cardinality cover of X by elements of Y *)
+Theorem C10_enum_xy_complete : forall rs pick X Y R,
+  (forall s b, pick s = Some b -> In b s) ->
+  enum_xy rs pick X Y = inl R ->
+  below_top rs X -> above_bot rs Y -> antichain Y ->
+  fam_nodup R /\ forall C, mincover X Y C -> has R C.
+Proof. exact enum_xy_exact. Qed.
+
+(* the exhaustive branch and bound with the reduction steps: a call on the
+   node (X, Y) with path cost pc and upper bound ub returns duplicate-free
+   covers, leaves the upper bound unchanged or at least the total cost of an
+   actual cover of the node (so the unconditional assignment
+   bab.upper_bound = branch_lb at a leaf of _traverse_exhaustive only weakens
+   pruning), and finds every minimum cover of the node whose total cost is
+   within the upper bound *)
+Theorem C10_ccfr_invariants : forall rs pick,
+  (forall s b, pick s = Some b -> In b s) ->
+  forall fuel X Y pc ub F u,
+  ccfr rs pick fuel X Y pc ub = inl (F, u) ->
+  below_top rs X -> above_bot rs Y -> antichain Y ->
+  fam_nodup F /\
+  (u = ub \/ exists C0, incl C0 Y /\ cov C0 X /\ (pc + length C0 <= u)%nat) /\
+  (forall C, mincover X Y C -> (pc + length C <= ub)%nat -> has F C).
+Proof.
+  intros rs pick Hp fuel X Y pc ub F u H HX HY HA.
+  exact (proj1 (ccfr_exact rs pick Hp fuel X Y pc ub F u H HX HY HA)).
+Qed.
+
+(* what remains of the unbounded statement: the model returns (no assertion
+   of cover_enum.py fails and the recursion ends within the fuel) on every
+   instance with a non-empty f: NOT proved (proved on the finite domains
+   above by computation) *)
+Definition C10_total : Prop :=
+  forall pick, (forall s b, pick s = Some b -> In b s) ->
+  forall rs f care, (exists p, in_ranges rs p /\ f p = true) ->
+  exists R, enum_minimize rs pick f care = inl R.
+
+(* the unbounded statement; [f] non-empty is the library's precondition
+   (cover_enum.minimize asserts on f = FALSE, see C10_refuted_empty_f) *)
 Definition C10_full : Prop :=
   forall pick, (forall s b, pick s = Some b -> In b s) ->
-  C10_spec (fun rs f care =>
-    match enum_minimize rs pick f care with inl R => Some R | inr _ => None end).
+  forall rs f care, (exists p, in_ranges rs p /\ f p = true) ->
+  exists R, enum_minimize rs pick f care = inl R /\
+            all_min_prime_covers rs f care R.
+
+(* exactness is proved, so the unbounded statement is reduced to C10_total *)
+Theorem C10_full_from_total : C10_total -> C10_full.
+Proof.
+  intros HT pick Hp rs f care Hf. destruct (HT pick Hp rs f care Hf) as [R HR].
+  exists R. split; [exact HR | apply (enum_exact rs pick f care R Hp HR)].
+Qed.
+
+(* without the precondition the statement is false: for f = FALSE the model
+   (like the code) stops at an assertion although the set of minimum covers
+   is { {} } *)
+Example C10_refuted_empty_f :
+  enum_minimize rs3 pick_first (fun _ => false) (fun _ => true) = inr EAssert /\
+  all_min_prime_covers rs3 (fun _ => false) (fun _ => true) [[]].
+Proof.
+  split; [vm_compute; reflexivity|].
+  apply is_all_min_covers_b_correct. vm_compute. reflexivity.
+Qed.
 
 (* ---- (3) finding F2: the witness of DESIGN section 7 (minterms 0000 0001
    0010 1000 1011 1100 1101 1111) has exactly three minimum covers, of size
@@ -154,4 +233,8 @@ Print Assumptions C10_enum_sound.
 Print Assumptions C10_bounded_3.
 Print Assumptions C10_bounded_3_pick_last.
 Print Assumptions C10_bounded_4.
+Print Assumptions C10_enum_exact.
+Print Assumptions C10_enum_xy_complete.
+Print Assumptions C10_ccfr_invariants.
+Print Assumptions C10_full_from_total.
 Print Assumptions C10_refuted_unrepaired.
